@@ -1256,4 +1256,25 @@ theorem runBlock_no_panic (cs : CharSpec) (ext : Ext) (oldStyle : Bool) (b : Lis
     exact Sat.pure g1.panic
   exact key
 
+theorem WF.of_chain {off : Nat} {b : List Tok} (hc : Chain off b) (he : EscapedOK b) (hne : b ≠ []) : WF b :=
+  ⟨hne, (show RunAt off b from ⟨hc, he⟩).base⟩
+
+/-- running the block parser over a list of well-formed blocks never sets the panic flag -/
+theorem foldl_runBlock_no_panic (cs : CharSpec) (ext : Ext) (oldStyle : Bool) (blocks : List (List Tok))
+    (evs0 : Array (Ev α)) (h : ∀ b ∈ blocks, WF b) :
+    (blocks.foldl (fun acc b => runBlock (α := α) cs ext oldStyle b acc.1 acc.2) (evs0, none)).2 = none := by
+  induction blocks generalizing evs0 with
+  | nil => rfl
+  | cons b bs ih =>
+    rw [List.foldl_cons]
+    have h1 := runBlock_no_panic (α := α) cs ext oldStyle b evs0 (h b (by simp))
+    have e1 : runBlock (α := α) cs ext oldStyle b evs0 none =
+        ((runBlock (α := α) cs ext oldStyle b evs0 none).1, none) := by
+      apply Prod.ext
+      · rfl
+      · exact h1
+    show (bs.foldl _ (runBlock (α := α) cs ext oldStyle b evs0 none)).2 = none
+    rw [e1]
+    exact ih _ (fun b' hb' => h b' (by simp [hb']))
+
 end Cook
